@@ -7,7 +7,7 @@ Everything not listed here and not inlined is uninterpreted (fresh result, &mut 
 """
 import re
 import z3
-from .sym import (I, Ref, Agg, EnumV, Bytes, Seq, Opaque, Cell, UNIT, Unsupported, PathEnd, bv, const_int, is_concrete, as_int, INT_TYPES)
+from .sym import (I, Ref, Agg, EnumV, Bytes, Seq, Opaque, Cell, MapV, UNIT, Unsupported, PathEnd, bv, const_int, is_concrete, as_int, INT_TYPES)
 
 MODELS = []
 
@@ -422,7 +422,7 @@ def m_partial_eq2(ex, st, callee, args, dty, m):
 @model(r"<(?:std::ops::|core::ops::)?Range<(\w+)> as IntoIterator>::into_iter$|<.* as IntoIterator>::into_iter$")
 def m_into_iter(ex, st, callee, args, dty, m):
     v = args[0]
-    if isinstance(v, Agg) and "Range" in v.name:
+    if isinstance(v, Agg) and ("Range" in v.name or v.name == "SeqIter"):
         return v
     if isinstance(deref(ex, v), Seq):
         # slice::Iter / vec::IntoIter over a concrete-length sequence
@@ -504,3 +504,138 @@ def m_io_error(ex, st, callee, args, dty, m):
 @model(r"<(\w+) as (?:From|Into)<\1>>::(?:from|into)$|<T as Into<U>>::into$|<T as From<T>>::from$")
 def m_identity_from(ex, st, callee, args, dty, m):
     return args[0]
+
+
+# ---------------------------------------------------------------- async plumbing (every poll is Ready)
+@model(r"Pin::<.*>::new_unchecked$|Pin::<.*>::new$|<.* as IntoFuture>::into_future$|Pin::<.*>::get_mut$|Pin::<.*>::as_mut$|Box::<.*>::pin$")
+def m_pin_identity(ex, st, callee, args, dty, m):
+    return args[0]
+
+
+@model(r"<Arc<.*> as Deref>::deref$|<Box<.*> as Deref(?:Mut)?>::deref(?:_mut)?$|<Arc<.*> as Clone>::clone$|<Arc<.*> as AsRef<.*>>::as_ref$")
+def m_arc_deref(ex, st, callee, args, dty, m):
+    return args[0]
+
+
+@model(r"tokio::sync::RwLock::<.*>::(read|write)$")
+def m_rwlock(ex, st, callee, args, dty, m):
+    st.events.append(("lock", m.group(1), args, None))
+    return Agg("struct", "LockFuture", [args[0], m.group(1)])
+
+
+@model(r"<tokio::sync::RwLock(?:Read|Write)Guard<'_, .*> as Deref(?:Mut)?>::deref(?:_mut)?$")
+def m_guard_deref(ex, st, callee, args, dty, m):
+    g = deref(ex, args[0])
+    if isinstance(g, Agg) and g.name == "Guard":
+        return g.fields[0]
+    return NotImplemented
+
+
+@model(r"<(.*) as Future>::poll$")
+def m_poll(ex, st, callee, args, dty, m):
+    fut = deref(ex, args[0])
+    if isinstance(fut, Agg) and fut.name == "LockFuture":
+        target = fut.fields[0]
+        return EnumV(dty or "Poll", "Ready", None, {"Ready": Agg("variant", "Ready", [Agg("struct", "Guard", [target, fut.fields[1]])])})
+    if isinstance(fut, EnumV) and fut.upvars is not None and getattr(fut, "ty", "").startswith("coroutine:"):
+        body = ex.coroutine_bodies.get(fut.ty)
+        if body is not None:
+            return ("__inline__", body, [args[0], args[1]])
+    # future of an uninterpreted async fn: Ready(fresh)
+    inner = None
+    mm = re.match(r"(?:std::task::)?Poll<(.*)>$", (dty or "").strip())
+    if mm:
+        inner = mm.group(1)
+    val = ex.fresh("await:" + (fut.name if isinstance(fut, Opaque) else "fut"), inner)
+    st.events.append(("await", fut.name if isinstance(fut, Opaque) else str(type(fut).__name__), [fut], val))
+    return EnumV(dty or "Poll", "Ready", None, {"Ready": Agg("variant", "Ready", [val])})
+
+
+# ---------------------------------------------------------------- hash maps / sets (std and ahash)
+MAP_RE = r"(?:std::collections::|ahash::|hashbrown::)?(?:AHashMap|HashMap|AHashSet|HashSet)::<.*?>"
+
+
+def as_map(ex, v, create=True):
+    r = v
+    v = deref(ex, v)
+    if isinstance(v, MapV):
+        return v
+    if isinstance(v, Opaque):
+        mv = v.children.get("map")
+        if mv is None:
+            # arbitrary pre-state: unknown content is represented by an uninterpreted membership
+            mv = MapV(v.name)
+            mv.entries = None
+            v.children["map"] = mv
+        return mv
+    raise Unsupported("map model on %s" % type(v).__name__)
+
+
+def key_eq(ex, a, b):
+    return value_eq(ex, a, b)
+
+
+@model(r"(?:" + MAP_RE + r")::new$|<(?:AHashMap|HashMap|AHashSet|HashSet)<.*> as Default>::default$")
+def m_map_new(ex, st, callee, args, dty, m):
+    return MapV("map!%d" % next(ex.fresh_counter), [])
+
+
+@model(MAP_RE + r"::contains_key::<.*>$|" + MAP_RE + r"::contains::<.*>$")
+def m_map_contains(ex, st, callee, args, dty, m):
+    mv = as_map(ex, args[0])
+    if mv.entries is None:
+        return NotImplemented
+    k = args[1]
+    conds = [z3.And(p, key_eq(ex, ek, k)) for p, ek, ev in mv.entries]
+    return z3.simplify(z3.Or(*conds)) if conds else z3.BoolVal(False)
+
+
+@model(MAP_RE + r"::insert$")
+def m_map_insert(ex, st, callee, args, dty, m):
+    mv = as_map(ex, args[0])
+    if mv.entries is None:
+        return NotImplemented
+    k = args[1]
+    val = args[2] if len(args) > 2 else UNIT
+    for e in mv.entries:
+        e[0] = z3.simplify(z3.And(e[0], z3.Not(key_eq(ex, e[1], k))))
+    mv.entries.append([z3.BoolVal(True), k, val])
+    return Opaque("insert-result!%d" % next(ex.fresh_counter), dty)
+
+
+@model(MAP_RE + r"::(?:remove|remove_entry)::<.*>$")
+def m_map_remove(ex, st, callee, args, dty, m):
+    mv = as_map(ex, args[0])
+    if mv.entries is None:
+        return NotImplemented
+    k = args[1]
+    for e in mv.entries:
+        e[0] = z3.simplify(z3.And(e[0], z3.Not(key_eq(ex, e[1], k))))
+    return Opaque("remove-result!%d" % next(ex.fresh_counter), dty)
+
+
+@model(MAP_RE + r"::get::<.*>$")
+def m_map_get(ex, st, callee, args, dty, m):
+    mv = as_map(ex, args[0])
+    if mv.entries is None:
+        return NotImplemented
+    k = args[1]
+    outs = []
+    none_cond = []
+    for p, ek, ev in mv.entries:
+        c = z3.simplify(z3.And(p, key_eq(ex, ek, k)))
+        none_cond.append(z3.Not(c))
+        outs.append((c, mk_some(dty, Ref(Cell(ev), ()))))
+    outs.append((z3.And(*none_cond) if none_cond else z3.BoolVal(True), mk_none(dty)))
+    return ("__fork__", outs)
+
+
+@model(MAP_RE + r"::len$")
+def m_map_len(ex, st, callee, args, dty, m):
+    mv = as_map(ex, args[0])
+    if mv.entries is None:
+        return NotImplemented
+    total = bv(0, 64)
+    for p, ek, ev in mv.entries:
+        total = total + z3.If(p, bv(1, 64), bv(0, 64))
+    return I(z3.simplify(total))
